@@ -1,26 +1,9 @@
-use verif_harness::e2_handler::*;
-use inputlayer::{Tuple, Value};
+use inputlayer::{IQLEngine, Tuple, Value};
 fn main() {
-    let env = Env::new("probe");
-    env.create_kg("A");
+    let mut e = IQLEngine::new();
     let i = |x: i64| Value::Int64(x);
-    let k: i64 = std::env::args().nth(2).and_then(|s| s.parse().ok()).unwrap_or(7);
-    let mut rows = vec![];
-    for j in 0..k { rows.push(Tuple::new(vec![i(1), i(2 + j)])); rows.push(Tuple::new(vec![i(2 + j), i(101 + j)])); }
-    eprintln!("inserting {} rows", rows.len());
-    env.insert("A", "e", rows);
-    eprintln!("inserted");
-    let which = std::env::args().nth(1).unwrap_or("0".into());
-    let rules: Vec<&str> = match which.as_str() {
-        "0" => vec!["+r(X, Y) <- e(X, Y)", "+r(X, Z) <- r(X, Y), e(Y, Z)"],
-        "1" => vec!["+r(X, Y) <- e(X, Y)", "+r(X, Z) <- e(X, Y), r(Y, Z)"],
-        _ => vec!["+h(X, Z) <- e(X, Y), e(Y, Z)"],
-    };
-    for r in rules { eprintln!("registering {r}"); println!("{:?}", messages(&env.query_program(Some("A"), r))); }
-    let rel = if which == "2" { "h" } else { "r" };
-    for q in [format!("?{rel}(1, 101)"), format!("?{rel}(1, Q1)"), format!(".why ?{rel}(1, 101)")] {
-        let t0 = std::time::Instant::now();
-        let r = env.query_program(Some("A"), &q);
-        println!("== {q}: {:?} rows {:?} trees {} in {:?}", r.as_ref().err(), r.as_ref().map(|x| x.rows.len()).unwrap_or(0), r.as_ref().map(|x| x.proof_trees.as_ref().map(|t| t.len()).unwrap_or(0)).unwrap_or(0), t0.elapsed());
-    }
+    e.add_tuples("e", vec![Tuple::new(vec![i(1), i(2)])]);
+    let prog = std::env::args().nth(1).unwrap();
+    let r = e.execute_tuples(&prog.replace("\\n", "\n"));
+    println!("RESULT {:?}", r.map(|v| v.iter().map(|t| t.to_string()).collect::<Vec<_>>()));
 }
